@@ -1,4 +1,5 @@
 import WhVerif.Lemmas.C08Example
+import WhVerif.Lemmas.C08Pos
 /-!
 # C08 — genotyping reports the exact posterior of its HMM; GT, GL and GQ agree.
 
@@ -97,6 +98,22 @@ theorem gq_is_posterior_complement [Field K] (inst : Inst) (p : Params K) (S : S
     gqMass (likelihood inst p S c i) g = 1 - posterior inst p c i g := by
   rw [gq_is_other_mass inst p S c i g hg htot, forward_backward_posterior inst p S hWF hS c hc]
 
+/-! ## positive parameters: the hypothesis `total ≠ 0` is automatic and the likelihoods are a probability distribution -/
+
+/-- for error and recombination probabilities strictly between 0 and 1 and positive priors (`Params.Pos`; the code's
+phred tables and every recombination cost ≥ 1 satisfy this) the normalisation of every column is non-zero -/
+theorem total_ne_zero_of_positive [Field K] [LinearOrder K] [IsStrictOrderedRing K] (inst : Inst) (p : Params K) (S : Scal K)
+    (hWF : inst.WF = true) (hp : p.Pos) (hS : S.NonZero) (c : Nat) (hc : c < inst.nCols) :
+    total inst.frame (inst.weights p) S c ≠ 0 :=
+  total_ne_zero inst.frame (inst.weights p) S (Inst.frame_WF inst hWF) hS (Inst.weights_pos inst p hp) c hc
+
+/-- … so the three likelihoods of every call are non-negative and sum to one: GL is log10 of a distribution -/
+theorem likelihoods_are_distribution [Field K] [LinearOrder K] [IsStrictOrderedRing K] (inst : Inst) (p : Params K) (S : Scal K)
+    (hWF : inst.WF = true) (hp : p.Pos) (hS : S.NonZero) (c : Nat) (hc : c < inst.nCols) (i : Nat) :
+    (∀ g, 0 ≤ likelihood inst p S c i g) ∧ ∑ g ∈ range 3, likelihood inst p S c i g = 1 :=
+  ⟨fun _ => likelihoodSel_nonneg inst.frame (inst.weights p) S (Inst.frame_WF inst hWF) hS (Inst.weights_pos inst p hp) c hc _,
+   likelihoods_sum_to_one inst p S c i (total_ne_zero_of_positive inst p S hWF hp hS c hc)⟩
+
 /-! ## non-vacuity: a concrete instance, exact rational arithmetic (kernel evaluation) -/
 
 example : exInst.WF = true := by decide
@@ -111,6 +128,9 @@ example : likelihood exInst exParams exScal 1 0 2 = likelihood exInst exParams S
   scaling_irrelevant exInst exParams exScal Scal.one exScal_nonZero Scal.one_nonZero 1 0 2
 example : ∑ g ∈ range 3, likelihood exInst exParams exScal 1 0 g = 1 :=
   likelihoods_sum_to_one exInst exParams exScal 1 0 (by decide +kernel)
+example : exParams.Pos := exParams_pos
+example : (∀ g, 0 ≤ likelihood exInst exParams exScal 1 0 g) ∧ ∑ g ∈ range 3, likelihood exInst exParams exScal 1 0 g = 1 :=
+  likelihoods_are_distribution exInst exParams exScal (by decide) exParams_pos exScal_nonZero 1 (by decide) 0
 example : gqMass (likelihood exInst exParams exScal 1 0) 1 = 1 - posterior exInst exParams 1 0 1 :=
   gq_is_posterior_complement exInst exParams exScal (by decide) exScal_nonZero 1 (by decide) 0 1 (by decide) (by decide +kernel)
 /-- a trio satisfies the guard as well (mother 0, father 1, child 2) -/
